@@ -79,7 +79,7 @@ def request_pool(rng, tier):
     pool.append(({"": "# pytrapic: compact\nfrom library import m\ndb.Setting = m.f(2)\n", "m": "@constexpr\ndef f(x):\n    return x * 3\n"}, V(append_version=False)))
     # the same main text with two versions of a library's constexpr function (the library changed between requests)
     for body in ("x * 3", "x * 5 + 1"):
-        pool.append(({"": "from library import recipes\ndb.Setting = recipes.batch(4)\nd1.Setting = recipes.batch(d0.On > 1)\n",
+        pool.append(({"": "from library import recipes\ndb.Setting = recipes.batch(4)\nd1.Setting = recipes.batch(7) + d0.On\n",
                       "recipes": f"@constexpr\ndef batch(x):\n    return {body}\ndef other(y):\n    return y + 1\n"}, V(append_version=False)))
     # writes to the registers that the package also keeps as module-level objects
     for s in ["sp = 0\npush(5)\n", "db.Setting = sp\n", "ra = 3\ndb.Setting = ra\n", "db.Setting = ra + sp\n", "r0 = 5\ndb.Setting = r0\n", "db.Setting = r0\n",
